@@ -91,6 +91,13 @@ func ParseWriteMultipleCoilsRequestTCP(data []byte) (*WriteMultipleCoilsRequestT
 		return nil, err
 	}
 	unitID := data[6]
+	if len(data) < 13 {
+		tmpErr := NewErrorParseTCP(ErrIllegalDataValue, "received data length too short to be valid packet")
+		tmpErr.Packet.TransactionID = header.TransactionID
+		tmpErr.Packet.UnitID = unitID
+		tmpErr.Packet.Function = FunctionWriteMultipleCoils
+		return nil, tmpErr
+	}
 	if data[7] != FunctionWriteMultipleCoils {
 		tmpErr := NewErrorParseTCP(ErrIllegalFunction, "received function code in packet is not 0x0f")
 		tmpErr.Packet.TransactionID = header.TransactionID
